@@ -13,6 +13,9 @@ mkdir -p "$(dirname "$DEMO")"; cp "$O/demo$N.rs" "$DEMO"
 echo "== with change: demo (expect FAIL)"
 cargo test --offline -p $CRATE --test $tname 2>&1 | grep -E "^test result|^error(\[|:)" | head -3
 git apply -R "$O/change$N.diff"
+# cargo decides freshness by mtime at one-second granularity: make sure the reverted files look newer than the build just made
+sleep 1.1; grep '^+++ b/' "$O/change$N.diff" | sed 's|^+++ b/||' | xargs -r touch
+for c in $(grep '^+++ b/' "$O/change$N.diff" | sed 's|^+++ b/||; s|/.*||' | sort -u); do cargo clean --offline -p $c >/dev/null 2>&1; done
 echo "== without change: demo (expect ok)"
 cargo test --offline -p $CRATE --test $tname 2>&1 | grep -E "^test result|^error(\[|:)" | head -3
 rm -f "$DEMO"; git checkout -q -- .
